@@ -133,11 +133,11 @@ m = {
  },
  "engines": [
    {"name": "harness", "path": "/verif/harness", "serves_properties": [c["property_id"] for c in checks],
-    "kind_free_text": "Rust workspace: vcommon (enumerators, reference models, isolation, evidence) + vchecks (adapter to the crate, one binary per property); explicit-state search and bounded-exhaustive enumeration executing the real crate code"},
+    "kind_free_text": "Rust workspace: vcommon (enumerators, reference models, isolation, evidence) + vchecks (adapter to the crate, one binary per property); explicit-state search and bounded-exhaustive enumeration executing the real crate code. Each check binary also exists in a second build against the crate with all cargo features (target dir /verif/target/feat-unstable) that the check runs as a sub-process (cheap checks: quick and thorough tier; C01 C02 C04 C05 C06 C13: thorough tier) and whose violations it merges"},
  ],
  "checks": checks,
  "not_applicable": na,
- "notes": "All checks are exhaustive enumerations of a stated finite scope executing the real crate (model checking family); see DESIGN.md. known findings: /verif/known_findings.txt",
+ "notes": "All checks are exhaustive enumerations of a stated finite scope executing the real crate (model checking family); see DESIGN.md (section 8.5: 126 seeded property-breaking changes by independent sub-agents, which checks catch which, and the generator each miss led to; section 7: limits). known findings: /verif/known_findings.txt",
 }
 json.dump(m, open('/verif/MANIFEST.json','w'), indent=1)
 print("checks:", [c["property_id"] for c in checks], "pending:", len(na))
